@@ -16,6 +16,12 @@ TT_EXTRA = [("xmlns", "http://www.w3.org/ns/ttml"), ("xmlns:tts", "http://www.w3
             ("xmlns:ttp", "http://www.w3.org/ns/ttml#parameter"), ("role", None)]
 SPAN_EXTRA = [("tts:color", "red"), ("tts:fontStyle", "italic"), ("tts:fontFamily", "monospace"), ("role", None)]
 LANGS = ["en-US", "es", "pt-BR", "fr", "de-AT"]
+# names the spec excludes from generic elements (coq/spec/SpecXmlDocT.v special_names)
+SPECIAL = {"div", "p", "tt", "br", "area", "base", "col", "embed", "hr", "img", "input", "keygen", "link", "menuitem", "meta",
+           "param", "source", "track", "wbr", "basefont", "bgsound", "command", "frame", "image", "isindex", "nextid", "spacer",
+           "script", "style", "title", "textarea", "template", "rt", "rp"}
+HTMLISH = ["html", "table", "select", "svg", "noscript", "section", "b", "i", "font", "ul", "li", "a", "main", "ruby", "form",
+           "center", "object", "math", "h1", "tbody", "tr", "td", "option", "span-x", "x:y"]
 
 
 class G:
@@ -122,6 +128,24 @@ class G:
         lang = r.choice(langs)
         return l1, ([] if lang is None else [[self.afmt(), lang]]), l2, lang
 
+    def generic_name(self):
+        """any name of the spec's generic_name class: HTML-ish names and random lower-case names"""
+        r = self.rng
+        while True:
+            if r.random() < 0.6:
+                n = r.choice(HTMLISH)
+            else:
+                n = "".join(r.choice("abcdefghijklmnopqrstuvwxyz") for _ in range(r.randint(1, 6)))
+                if r.random() < 0.3:
+                    n += r.choice(["1", "-a", "_b", ".c", ":d"])
+            if n not in SPECIAL:
+                self.generic = getattr(self, "generic", 0) + 1
+                return n
+
+    def wrap(self, node):
+        """audit 7: a generic element of ANY admissible name around a <p> or a <div> (not TTML, but inside xdoc_ok)"""
+        return ["elem", self.ws(0.5), self.generic_name(), self.rtag(DIV_EXTRA[3:], self.rng.choice([0, 0, 1])), [node], self.ws(0.8)]
+
     def div(self, depth):
         r = self.rng
         l1, lang, l2, _ = self.lang_parts(DIV_EXTRA, [None, None, None] + LANGS[:3])
@@ -134,6 +158,8 @@ class G:
                 # <metadata> / <set>: children of a <div> that hold no paragraph
                 kids.append(["elem", self.ws(0.5), r.choice(["metadata", "set"]), self.rtag(DIV_EXTRA[3:], r.choice([0, 1])),
                              [], self.ws(0.8)])
+            elif x < 0.35:
+                kids.append(self.wrap(self.p()))
             else:
                 kids.append(self.p())
         return ["div", self.ws(0.4), l1, lang, l2, self.ws(0.7), kids, self.ws(0.8)]
@@ -142,7 +168,7 @@ class G:
         r = self.rng
         body = []
         for _ in range(n_top if n_top is not None else r.choice([1, 2, 2, 3, 4])):
-            body.append(self.p() if r.random() < 0.08 else self.div(0))
+            body.append(self.p() if r.random() < 0.08 else (self.wrap(self.div(0)) if r.random() < 0.12 else self.div(0)))
         head = ["elem", self.ws(0.5), "head", [[], ""], [
             ["elem", "", "styling", [[], ""], [["empty", self.ws(0.6), "style", [[[[" ", "", "", 1], "xml:id", "s1"]], self.ws(0.7)]]], ""],
             ["elem", self.ws(0.6), "layout", [[], ""], [["empty", "", "region", [[[[" ", "", "", 1], "xml:id", "r1"]], ""]]], ""],
